@@ -118,7 +118,7 @@ class C19(Check):
         return self.tmp
 
     def generate(self, rng, tier, shard, nshards):
-        n = 260 if tier == 'quick' else 10 ** 7
+        n = 210 if tier == 'quick' else 10 ** 7
         comps = [None, 'gzip', 'zstd']
         modes = ['stream', 'reframed', 'path', 'fileobj', 'open_obj', 'whole']
         for k in range(n):
